@@ -39,9 +39,13 @@ Probe(st, n) ==
    asvalue |-> IsFieldName(st, n),        \* parse_value("<n>") succeeds
    ascall |-> IsFuncName(st, n)]          \* parse_value("<n>()") succeeds
 
+(* get_list(T) for a fixed pool of types: found iff a list is registered for T, and it is the list of T *)
+ListProbeTypes == <<[k |-> "Int"], [k |-> "Bytes"], [k |-> "Ip"], [k |-> "Bool"], [k |-> "Array", e |-> [k |-> "Int"]]>>
+ListLookup(st) == [i \in 1..Len(ListProbeTypes) |->
+                     [ty |-> ListProbeTypes[i], found |-> HasListFor(st, ListProbeTypes[i]), got |-> ListProbeTypes[i]]]
 Summary(st) == [nfields |-> Len(st.fields), nfuncs |-> Len(st.funcs), nlists |-> Len(st.lists),
                 order |-> Strict([i \in 1..Len(st.fields) |-> st.fields[i].name]),
-                funcorder |-> st.funcs, listorder |-> st.lists]
+                funcorder |-> st.funcs, listorder |-> st.lists, listlookup |-> ListLookup(st)]
 
 (* invariants *)
 Unique(st) == /\ \A i, j \in 1..Len(st.fields) : st.fields[i].name = st.fields[j].name => i = j
